@@ -174,14 +174,13 @@ def insertByHash (o : CkptObj) : List CkptObj → List CkptObj
   | x :: xs => if o.c.hash ≤ x.c.hash then o :: x :: xs else x :: insertByHash o xs
 
 /-- `GetCheckpointsByHeight` / `loadCheckpointsFromIter`: records straight from the DB (the
-    checkpoint cache is not consulted), each with the SupLinks of its (cached) header; a record
-    whose block header is not stored is SKIPPED (the checkpoint is written before its block; the
-    call used to fail as a whole) -/
+    checkpoint cache is not consulted), each with the SupLinks of its (cached) header; any
+    missing header fails the whole call -/
 def loadCkpts (s : Store) : List Ckpt → Option (List CkptObj) × Store
   | [] => (some [], s)
   | c :: cs =>
     match getHeader s c.hash with
-    | (none, s1) => loadCkpts s1 cs
+    | (none, s1) => (none, s1)
     | (some h, s1) =>
       match loadCkpts s1 cs with
       | (none, s2) => (none, s2)
